@@ -13,9 +13,10 @@ Conventions of the code under test (prysm/x/polarization.py), used by the refere
 * Pauli basis: s0 = I, s1 = diag(1,-1), s2 = [[0,1],[1,0]], s3 = [[0,-i],[i,0]] (docstring of ``pauli_spin_matrix``).
 
 ``add_jones_propagation`` monkey-patches ``prysm.propagation``.  The harness process never calls it: the
-installation-count part runs in one sub-process per case (``subprocess.run([sys.executable, '-c', ...])``,
-PYTHONPATH inherited), so nothing can leak into other cases; the adapter itself is exercised in-process through
-``jones_adapter(f)`` which patches nothing.
+installation-history part runs in one sub-process per case (``subprocess.run([sys.executable, '-c', ...])``,
+PYTHONPATH inherited; the sub-process only imports the library and forks one child per evaluation mode, so every
+history starts from the pristine just-imported state), so nothing can leak into other cases; the adapter itself is
+exercised in-process through ``jones_adapter(f)`` which patches nothing.
 """
 import json
 import math
@@ -43,7 +44,9 @@ ASSUMPTIONS = [
     'jones_to_mueller(broadcast=False) (np.kron) is only claimed for a single 2x2 matrix; batches go through broadcast=True',
     'array-valued theta / retardance / alpha are passed together with shape=<their shape>, the documented way to obtain a spatially varying element; '
     'every array argument is a fresh float copy (vector_vortex_retarder multiplies the caller\'s theta in place: recorded as outcome "mutates-theta", not judged)',
-    'the installation-count history runs in a sub-process per case and is compared with the never-patched routines of the harness process',
+    'the installation histories run in a sub-process per case (one forked child of the freshly imported library per evaluation mode) and are compared with the never-patched routines of the harness process; '
+    'those reference results are computed once per (precision, seed) in each worker process',
+    'an argument form (sequence / numpy scalar / 0-d array / integer type) belongs to the domain of the propagation adapter iff the unchanged scalar routine accepts it',
 ]
 
 TOLU = 32 * np.finfo(float).eps    # tolerance unit: every oracle below is k * TOLU * scale; HEAD is silent at TOLU = 1 eps (all seeds, thorough): margin >= 32x
@@ -630,9 +633,83 @@ def run_vectors(case, seed, R):
 # ---------------------------------------------------------------------------------------------
 # unit: propagation adapter (in-process, through jones_adapter -- nothing is patched)
 
+def F(form, v):
+    """Argument-form marker inside a call description: the value v handed over as <form> (built fresh for every call by ``_mk``)."""
+    return {'form': form, 'v': v}
+
+
+def build_form(spec):
+    """A FRESH object holding spec['v'] in the argument form spec['form'] (sequence forms for a list value, scalar forms otherwise)."""
+    form, v = spec['form'], spec['v']
+    if isinstance(v, (list, tuple)):
+        v = list(v)
+        if form == 'tuple':
+            return tuple(v)
+        if form == 'list':
+            return list(v)
+        if form in ('f64', 'f32', 'i64', 'i32'):
+            return np.array(v, dtype={'f64': np.float64, 'f32': np.float32, 'i64': np.int64, 'i32': np.int32}[form])
+        if form == 'npscalars':
+            return tuple(np.float64(x) for x in v)
+        if form == 'npints':
+            return tuple(np.int64(x) for x in v)
+        if form == '0d':
+            return tuple(np.array(float(x)) for x in v)
+        if form == 'strided':       # every other element of a longer float64 buffer (non-contiguous view)
+            buf = np.full(2 * len(v) - 1, 9.0)
+            buf[::2] = v
+            return buf[::2]
+        if form == 'range':         # two integers as a range with a step
+            step = v[1] - v[0]
+            return range(v[0], v[1] + (1 if step > 0 else -1), step)
+        raise KeyError(form)
+    if form == 'float':
+        return float(v)
+    if form == 'int':
+        return int(v)
+    if form in ('f64', 'f32', 'i64', 'u8'):
+        return {'f64': np.float64, 'f32': np.float32, 'i64': np.int64, 'u8': np.uint8}[form](v)
+    if form == '0d':
+        return np.array(float(v))
+    if form == '0di':
+        return np.array(int(v))
+    raise KeyError(form)
+
+
+SHIFT_FORMS_F = ['list', 'f64', 'f32', 'npscalars', '0d', 'strided']     # besides the tuple of the base call forms
+SHIFT_FORMS_I = ['i64', 'i32', 'range', 'list', 'npints']               # integer-valued shifts
+Q_FORMS = ['float', 'f64', 'f32', '0d', 'i64', 'u8', '0di']
+
+
+def _fixed_sampling_forms(base, shift_f, shift_i):
+    """Argument-form alphabet of focus_fixed_sampling / unfocus_fixed_sampling (every form the unchanged routine answers correctly for,
+    measured against the tuple / python-float form): a NON-ZERO shift with output_dx != 1 in every sequence form x both engines, shift
+    passed positionally, output_samples forms, every scalar parameter as numpy scalar / 0-d array / integer type."""
+    out = []
+    for method in ('mdft', 'czt'):
+        for form in SHIFT_FORMS_F:
+            out.append(((*base, [5, 6]), {'shift': F(form, shift_f), 'method': method}, 'key' if form in ('f64', '0d') else False))
+        for form in SHIFT_FORMS_I:
+            out.append(((*base, [5, 6]), {'shift': F(form, shift_i), 'method': method}, 'key' if form == 'i64' else False))
+        out.append(((*base, 5, F('f64', shift_f), method), {}, 'key'))
+        for form in ('f64', '0d'):
+            out.append((tuple(F(form, b) for b in base) + (5,), {'shift': shift_f, 'method': method}, False))
+        for form in ('int', 'i64', 'u8'):
+            out.append((tuple(F(form, b) if float(b).is_integer() else b for b in base) + (5,), {'shift': shift_f, 'method': method}, False))
+    for form in ('range', 'npints'):
+        out.append(((*base, F(form, [5, 6])), {'shift': shift_f}, False))
+    out.append(((*base, F('i64', 5)), {'shift': shift_f}, False))
+    for form in ('list', 'i64', 'i32', 'range'):      # the matrix-DFT engine rejects unhashable output_samples; the chirp-z engine takes them
+        out.append(((*base, F(form, [5, 6])), {'shift': shift_f, 'method': 'czt'}, False))
+    return out
+
+
 def prop_calls(shape):
+    """Call forms per routine: (positional args, keyword args, full).  full=True: the base forms, run on the whole Jones-field alphabet;
+    full=False / 'key': argument-form variants (``F`` markers), run on the dense Jones field and a 2-D field; the 'key' ones (float64 / int64 /
+    0-d array forms, the ones a routine can modify in place) are also run by the mixed and staged installation histories."""
     n0, n1 = shape
-    return {
+    calls = {
         'focus': [((2,), {}), ((1,), {}), ((), {'Q': 2})],
         'unfocus': [((2,), {}), ((1,), {}), ((), {'Q': 1.5})],
         'focus_fixed_sampling': [((0.5, 50.0, 0.6, 2.0, 5), {}), ((0.5, 50.0, 0.6, 2.0, [5, 6]), {'shift': [1.5, -2.0]}),
@@ -641,14 +718,50 @@ def prop_calls(shape):
                                    ((2.0, 50.0), {'wavelength': 0.6, 'output_dx': 0.5, 'output_samples': 4, 'method': 'czt'})],
         'angular_spectrum': [((0.6, 0.5, 3.0), {}), ((0.6, 0.5, 3.0), {'Q': 1}), ((0.6, 0.5), {'z': 3.0, 'Q': 1, 'tf': 'tf'})],
     }
+    calls = {n: [(a, k, True) for a, k in v] for n, v in calls.items()}
+    for n in ('focus', 'unfocus'):
+        for q in (2, 1, 1.5):
+            for form in Q_FORMS:
+                if form in ('i64', 'u8', '0di') and q != int(q):
+                    continue
+                calls[n].append(((F(form, q),), {}, False))
+        calls[n].append(((), {'Q': F('0d', 2)}, 'key'))
+    calls['focus_fixed_sampling'] += _fixed_sampling_forms((0.5, 50.0, 0.6, 2.0), [1.5, -2.0], [2, -4])
+    calls['unfocus_fixed_sampling'] += _fixed_sampling_forms((2.0, 50.0, 0.6, 0.5), [0.5, -1.0], [1, -2])
+    for form in ('f64', '0d'):
+        calls['angular_spectrum'].append(((F(form, 0.6), F(form, 0.5), F(form, 3.0)), {}, 'key' if form == '0d' else False))
+        calls['angular_spectrum'].append(((0.6, 0.5), {'z': F(form, 3.0), 'Q': 1, 'tf': 'tf'}, False))
+    for form in ('int', 'i64', 'u8'):
+        calls['angular_spectrum'].append(((0.6, 0.5, F(form, 3)), {'Q': 1}, False))
+    for q in (2, 1):
+        for form in Q_FORMS:
+            calls['angular_spectrum'].append(((0.6, 0.5, 3.0), {'Q': F(form, q)}, False))
+    return calls
+
+
+def _describe(args, kw):
+    d = lambda v: f"{v['form']}:{v['v']}" if _is_form(v) else ('<tf>' if isinstance(v, str) and v == 'tf' else repr(v))   # noqa
+    return '(' + ', '.join([d(a) for a in args] + [f'{k}={d(v)}' for k, v in kw.items()]) + ')'
+
+
+def _is_form(v):
+    return isinstance(v, dict) and 'form' in v
 
 
 def _mk(args, kw, shape, seed):
-    kw = {k: (tuple(v) if isinstance(v, list) else v) for k, v in kw.items()}
-    args = tuple(tuple(a) if isinstance(a, list) else a for a in args)
+    """Concrete (args, kwargs) of a call description; every container / array / numpy scalar in it is a NEW object on every invocation."""
+    conv = lambda v: build_form(v) if _is_form(v) else (tuple(v) if isinstance(v, list) else v)   # noqa
+    kw = {k: conv(v) for k, v in kw.items()}
+    args = tuple(conv(a) for a in args)
     if kw.get('tf') == 'tf':
         kw['tf'] = np.exp(1j * dense(shape, seed, salt=77, complex_=False))
     return args, kw
+
+
+def _arg_snapshot(args, kw):
+    """repr of every non-field argument, to detect that a routine changed a caller's argument object."""
+    return repr([np.asarray(v).tolist() if isinstance(v, (np.ndarray, np.generic, range)) else
+                 ([np.asarray(w).tolist() for w in v] if isinstance(v, (list, tuple)) else v) for v in list(args) + [kw[k] for k in sorted(kw)]])
 
 
 SCALES = [1e-3, 1e-9, 1e-12]      # amplitude alphabet besides 1: small units, cross-polarisation leakage, far below any absolute tolerance
@@ -710,13 +823,21 @@ def run_adapter(case, seed, R):
     wrapped = R.call(pol.jones_adapter, plain)
     if wrapped is FAILED:
         return
-    for ci, (args, kw) in enumerate(prop_calls(shape)[name]):
-        sig = f'jones_adapter:{name}'
+    for ci, (args, kw, full) in enumerate(prop_calls(shape)[name]):
+        full = full is True
+        sig = f'jones_adapter:{name}' + ('' if full else ':argform')
         got_dense = None
         for fname, J in jones_fields(shape, seed):
+            if not full and fname != 'dense':
+                continue
             a, k = _mk(args, kw, shape, seed)
+            snap = _arg_snapshot(a, k)
             reset_executors(PREC)
+            # the argument objects (shift / samples / Q ... in their form) are explicit arguments of R.call: the hygiene layer sees them,
+            # and the adapter hands the SAME objects to the scalar routine four times
             got = R.call(wrapped, J.copy(), *a, sig=sig + ':exception', **k)
+            if got is not FAILED:
+                R.expect(_arg_snapshot(a, k) == snap, sig + ':argument-changed', f'adapter({name}) call {ci} changed a caller\'s argument object: {snap} -> {_arg_snapshot(a, k)}')
             comps = {}
             ok = True
             for i in range(2):
@@ -740,7 +861,7 @@ def run_adapter(case, seed, R):
             want = np.empty(oshape + (2, 2), dtype=complex)
             for (i, j), c in comps.items():
                 want[..., i, j] = c
-            R.expect_close(got, want, comp_tol(want), sig + ':componentwise', f'adapter({name}) call {ci} on {fname} {shape} vs four plain propagations (relative per component)')
+            R.expect_close(got, want, comp_tol(want), sig + ':componentwise', f'adapter({name}) call {ci} {_describe(args, kw)} on {fname} {shape} vs four plain propagations, each with fresh argument objects (relative per component)')
             if fname == 'dense':
                 got_dense = got
             elif fname.startswith('4d:all:') and got_dense is not None:
@@ -763,9 +884,217 @@ def run_adapter(case, seed, R):
     J = dense(shape + (2, 2), seed, salt=303)
     out = R.call(pol.apply_polarization_optic, E.copy(), J.copy())
     R.expect_close(out, J * E[..., None, None], 4 * TOLU * float(np.abs(J).max() * np.abs(E).max()), 'apply_polarization_optic', f'field * optic, shape {shape}')
-    R.expect(getattr(wrapped, '__name__', None) == name, sig + ':wraps', 'functools.wraps lost the name')
+    R.expect(getattr(wrapped, '__name__', None) == name, f'jones_adapter:{name}:wraps', 'functools.wraps lost the name')
     R.nontrivial(True)
     R.outcome(name)
+
+
+# ---------------------------------------------------------------------------------------------
+# unit: size thresholds (batch counts just above powers of two) -- vectorised reference, every element judged
+
+_IRR = [0.6180339887498949, 0.7548776662466927, 0.5698402909980532, 0.8191725133961645, 0.3819660112501051, 0.4142135623730951, 0.7320508075688772]
+
+
+def lattice(shape, k, lo, hi, seed):
+    """Deterministic, pairwise distinct parameter field: lo + (hi - lo) * frac(i * irrational_k + offset), i the C-order index."""
+    n = int(np.prod(shape))
+    fr = (np.arange(n, dtype=float) * _IRR[k % len(_IRR)] + 0.137 * (k + 1) + 0.0101 * (int(seed) % 97)) % 1.0
+    return (lo + (hi - lo) * fr).reshape(shape)
+
+
+def rot_b(t):
+    c, s_ = np.cos(t), np.sin(t)
+    return np.stack([np.stack([c, s_], axis=-1), np.stack([-s_, c], axis=-1)], axis=-2).astype(complex)
+
+
+def diag_b(d0, d1):
+    D = np.zeros(np.shape(d1) + (2, 2), dtype=complex)
+    D[..., 0, 0] = d0
+    D[..., 1, 1] = d1
+    return D
+
+
+def ret_b(d, t):
+    return rot_b(-t) @ diag_b(1.0, np.exp(1j * d)) @ rot_b(t)
+
+
+def dia_b(a, t):
+    return rot_b(-t) @ diag_b(1.0, a) @ rot_b(t)
+
+
+def vvr_b(charge, th, d, rot):
+    q = charge * th
+    c, s_ = np.cos(q), np.sin(q)
+    J = math.sin(d / 2) * np.stack([np.stack([c, s_], axis=-1), np.stack([s_, -c], axis=-1)], axis=-2).astype(complex)
+    J[..., 0, 0] -= 1j * math.cos(d / 2)
+    J[..., 1, 1] -= 1j * math.cos(d / 2)
+    return Rref(-rot) @ J @ Rref(rot)
+
+
+def stokes_b(E):
+    ex, ey = E[..., 0], E[..., 1]
+    x = np.conj(ex) * ey
+    return np.stack([np.abs(ex) ** 2 + np.abs(ey) ** 2, np.abs(ex) ** 2 - np.abs(ey) ** 2, 2 * x.real, -2 * x.imag], axis=-1)
+
+
+def mueller_b(J):
+    """The Mueller matrices defined by S(J E) = M S(E), for a whole batch at once (same four probe states as ``mueller_ref``)."""
+    sout = np.stack([stokes_b(J[..., :, 0] * e[0] + J[..., :, 1] * e[1]) for e in _PROBES], axis=-1)
+    return sout @ _SIN_INV
+
+
+def kron_b(A, B):
+    return np.einsum('...ij,...kl->...ikjl', A, B).reshape(A.shape[:-2] + (4, 4))
+
+
+def elem_fro_max(J):
+    return float(np.sqrt((np.abs(J) ** 2).sum(axis=(-1, -2)).max()))
+
+
+def run_threshold(case, seed, R):
+    shape, group = tuple(case['shape']), case['group']
+    n = int(np.prod(shape))
+    hy = bool(case['hy'])
+    tagn = 'nd' if len(shape) > 1 else '1d'
+    call = lambda f, *a, **k: R.call(f, *a, hygiene=hy, **k)   # noqa
+    if group == 'mueller':
+        sig = f'threshold:jones_to_mueller:{tagn}'
+        A = ret_b(lattice(shape, 0, -2 * PI, 2 * PI, seed), lattice(shape, 1, -PI, PI, seed)) @ ret_b(lattice(shape, 2, -2 * PI, 2 * PI, seed), lattice(shape, 3, -PI, PI, seed))
+        A = A * np.exp(1j * lattice(shape, 4, -PI, PI, seed))[..., None, None]        # elliptical retarders with a varying global phase: unitary
+        MA = valid(R, call(pol.jones_to_mueller, A, sig=sig + ':exception'), shape + (4, 4), sig + ':shape', f'M of {n} unitary matrices {shape}', kind='f')
+        if MA is not None:
+            R.expect_close(MA, mueller_b(A), 64 * TOLU, sig + ':value', f'batched M {shape} vs Stokes definition, every element (unitary batch)')
+            R.expect_close(MA @ np.swapaxes(MA, -1, -2), np.broadcast_to(np.eye(4), MA.shape), 64 * TOLU, sig + ':orthogonal', f'M M^T != I, unitary batch {shape}')
+            R.expect_close(MA[..., 0, 0], np.ones(shape), 32 * TOLU, sig + ':orthogonal', f'M00 != 1, unitary batch {shape}')
+        if case.get('single'):
+            R.nontrivial(True)
+            R.outcome('threshold:mueller:single')
+            return
+        B = dense(shape + (2, 2), seed, salt=400)
+        sb = max(1.0, elem_fro_max(B)) ** 2
+        MB = valid(R, call(pol.jones_to_mueller, B, sig=sig + ':exception'), shape + (4, 4), sig + ':shape', f'M of {n} generic matrices {shape}', kind='f')
+        if MB is not None:
+            R.expect_close(MB, mueller_b(B), 64 * TOLU * sb, sig + ':value', f'batched M {shape} vs Stokes definition, every element (generic batch)')
+        AB = A @ B
+        MAB = valid(R, call(pol.jones_to_mueller, AB, sig=sig + ':exception'), shape + (4, 4), sig + ':shape', f'M of a product batch {shape}', kind='f')
+        if MAB is not None and MA is not None and MB is not None:
+            R.expect_close(MAB, MA @ MB, 64 * TOLU * sb, sig + ':multiplicative', f'batched M(AB) != M(A)M(B), every element, {shape}')
+        K = valid(R, call(pol.broadcast_kron, A, B), shape + (4, 4), f'threshold:broadcast_kron:{tagn}', f'broadcast_kron of {shape}')
+        if K is not None:
+            R.expect_close(K, kron_b(A, B), 8 * TOLU * sb, f'threshold:broadcast_kron:{tagn}', f'broadcast_kron {shape} vs the Kronecker product of every element')
+        c = call(pol.pauli_coefficients, B)
+        if c is not FAILED:
+            try:
+                cs = [valid(R, x, shape, f'threshold:pauli_coefficients:{tagn}', f'c_k of {shape}') for x in c]
+            except Exception as e:   # noqa
+                R.violation(f'threshold:pauli_coefficients:{tagn}', f'unusable output: {e}')
+                cs = [None]
+            if len(cs) == 4 and all(x is not None for x in cs):
+                rec = sum(cs[k][..., None, None] * PAULI[k] for k in range(4))
+                R.expect_close(rec, B, 8 * TOLU * math.sqrt(sb), f'threshold:pauli_coefficients:{tagn}', f'sum c_k sigma_k != J, every element of {shape}')
+            elif len(cs) != 4:
+                R.violation(f'threshold:pauli_coefficients:{tagn}', f'{len(cs)} coefficients')
+        R.nontrivial(True)
+        R.outcome('threshold:mueller')
+        return
+    if group == 'ctor':
+        d = lattice(shape, 0, -2 * PI, 2 * PI, seed)
+        t = lattice(shape, 1, -PI, PI, seed)
+        al = lattice(shape, 2, 0.0, 1.0, seed)
+        for name, f, kw, want, unitary in (
+                ('jones_rotation_matrix', pol.jones_rotation_matrix, {'theta': t}, rot_b(t), True),
+                ('linear_retarder', pol.linear_retarder, {'retardance': d, 'theta': t}, ret_b(d, t), True),
+                ('half_wave_plate', pol.half_wave_plate, {'theta': t}, ret_b(PI, t), True),
+                ('quarter_wave_plate', pol.quarter_wave_plate, {'theta': t}, ret_b(PI / 2, t), True),
+                ('linear_diattenuator', pol.linear_diattenuator, {'alpha': al, 'theta': t}, dia_b(al, t), False),
+                ('linear_polarizer', pol.linear_polarizer, {'theta': t}, dia_b(0.0, t), False)):
+            sig = f'threshold:{name}:{tagn}'
+            J = valid(R, call(f, **{k: v.copy() for k, v in kw.items()}, shape=list(shape), sig=sig), shape + (2, 2), sig, f'{name} with arrays of shape {shape}')
+            if J is None:
+                continue
+            R.expect_close(J, want, 32 * TOLU, sig, f'{name} batched {shape} vs reference, every element')
+            if unitary:
+                check_unitary(R, J, sig, f'{name} batched {shape}')
+        th = lattice(shape, 3, 0.0, 2 * PI, seed)
+        for charge, dd, rv in ((1.5, 2.0, 0.5), (2, PI, 0.0)):
+            sig = f'threshold:vector_vortex_retarder:{tagn}'
+            J = valid(R, call(pol.vector_vortex_retarder, charge, th.copy(), retardance=dd, rotate=rv, sig=sig), shape + (2, 2), sig, f'vvr on a theta grid {shape}')
+            if J is not None:
+                R.expect_close(J, vvr_b(charge, th, dd, rv), 32 * TOLU, sig, f'vvr(charge={charge}, ret={dd}, rotate={rv}) {shape} vs Mawet eq. 7, every element')
+                check_unitary(R, J, sig, f'vvr {shape}')
+        for deg in (False, True):
+            sig = f'threshold:linear_pol_vector:{tagn}'
+            E = valid(R, call(pol.linear_pol_vector, np.degrees(t) if deg else t.copy(), degrees=deg, sig=sig), shape + (2, 1), sig, f'linear_pol_vector(array {shape})')
+            if E is not None:
+                R.expect_close(E[..., 0], np.stack([np.cos(t), np.sin(t)], axis=-1), 8 * TOLU, sig, f'linear_pol_vector {shape} degrees={deg} vs (cos, sin), every element')
+        for k in (1, 3):
+            sig = f'threshold:pauli_spin_matrix:{tagn}'
+            sb_ = valid(R, call(pol.pauli_spin_matrix, k, shape=list(shape), sig=sig), shape + (2, 2), sig, f'sigma_{k} with shape={shape}')
+            if sb_ is not None:
+                R.expect_equal(sb_, np.broadcast_to(PAULI[k], shape + (2, 2)), sig, f'sigma_{k} with shape={shape}')
+        sig = f'threshold:circular_pol_vector:{tagn}'
+        Eb = valid(R, call(pol.circular_pol_vector, 'left', shape=list(shape), sig=sig), shape + (2, 1), sig, f'circular_pol_vector(shape={shape})')
+        if Eb is not None:
+            R.expect_close(Eb[..., 0], np.broadcast_to(np.array([1, 1j]) / math.sqrt(2), shape + (2,)), 4 * TOLU, sig, f'circular_pol_vector(left, shape={shape})')
+        R.nontrivial(True)
+        R.outcome('threshold:ctor')
+        return
+    # group 'adapter': 2-D pupils; polarised == four plain propagations, every sample
+    J = dense(shape + (2, 2), seed, salt=410)
+    E = dense(shape, seed, salt=411)
+    out = call(pol.apply_polarization_optic, E, J)
+    R.expect_close(out, J * E[..., None, None], 4 * TOLU * float(np.abs(J).max() * np.abs(E).max()), f'threshold:apply_polarization_optic', f'field * optic, shape {shape}')
+    for name, args, kw in (('focus', (1,), {}), ('unfocus', (2,), {}), ('angular_spectrum', (0.6, 0.5, 3.0), {'Q': 1}),
+                           ('focus_fixed_sampling', (0.5, 50.0, 0.6, 2.0, (5, 6)), {'shift': (1.5, -2.0)}),
+                           ('unfocus_fixed_sampling', (2.0, 50.0, 0.6, 0.5, 7), {'shift': (0.5, -1.0), 'method': 'czt'})):
+        if n > 70000 and name == 'unfocus':
+            continue
+        plain = getattr(prop, name)
+        sig = f'threshold:jones_adapter:{name}'
+        wrapped = R.call(pol.jones_adapter, plain)
+        if wrapped is FAILED:
+            continue
+        reset_executors(PREC)
+        got = call(wrapped, J, *args, sig=sig + ':exception', **kw)
+        comps = []
+        for i in range(2):
+            for j in range(2):
+                reset_executors(PREC)
+                comps.append(plain_eval(plain, np.ascontiguousarray(J[..., i, j]), args, kw, R))
+        reset_executors(PREC)
+        if any(c is None for c in comps):
+            R.outcome('plain-routine-raises')
+            continue
+        got = valid(R, got, comps[0].shape + (2, 2), sig + ':shape', f'adapter({name}) on a pupil {shape}')
+        if got is None:
+            continue
+        want = np.empty(comps[0].shape + (2, 2), dtype=complex)
+        for q, c in enumerate(comps):
+            want[..., q // 2, q % 2] = c
+        R.expect_close(got, want, comp_tol(want), sig + ':componentwise', f'adapter({name}) on a pupil {shape} vs four plain propagations, every sample')
+    R.nontrivial(True)
+    R.outcome('threshold:adapter')
+
+
+def threshold_cases(tier):
+    quick = tier == 'quick'
+    one_d = sorted({2 ** k + 1 for k in range(7, 17)} | {2 ** k + 2 ** (k - 1) + 3 for k in range(7, 17)})
+    shapes = [[n] for n in one_d] + [[129, 3], [65, 65], [150, 150], [3, 50, 31], [181, 182], [300, 300], [257, 1030], [513, 513]]
+    if not quick:
+        shapes += [[4097], [2, 2049], [64, 64], [128, 128], [1000, 1100]]
+    cases = []
+    for shp in shapes:
+        n = int(np.prod(shp))
+        for prec in (64, 32):
+            if prec == 32 and n > 2 ** 18:
+                continue
+            for group in ('mueller', 'ctor') + (('adapter',) if len(shp) == 2 and n <= 2 ** 19 else ()):
+                cases.append({'group': group, 'shape': shp, 'hy': n <= 2 ** 13 + 2 ** 12 + 3, 'prec': prec})
+    # one stack of more than 2^20 Jones matrices (a 1025 x 1025 Jones pupil): a single conversion in the quick tier, the full group in the thorough tier
+    cases.append({'group': 'mueller', 'shape': [1025, 1025], 'hy': False, 'prec': 64, **({'single': True} if quick else {})})
+    if not quick:
+        cases.append({'group': 'ctor', 'shape': [1025, 1025], 'hy': False, 'prec': 64})
+    return cases
 
 
 # ---------------------------------------------------------------------------------------------
@@ -774,131 +1103,230 @@ def run_adapter(case, seed, R):
 _SUB = r'''
 import sys, json, traceback
 import numpy as np
-k, funcs, seed, outdir, prec = int(sys.argv[1]), json.loads(sys.argv[2]), int(sys.argv[3]), sys.argv[4], int(sys.argv[5])
+spec, seed, outdir, prec = json.loads(sys.argv[1]), int(sys.argv[2]), sys.argv[3], int(sys.argv[4])
 import prysm.propagation as P
 import prysm.x.polarization as pol
 from props import c20
 c20.set_prec(prec)
 before = {n: getattr(P, n) for n in dir(P) if callable(getattr(P, n)) and not n.startswith('_')}
-for _ in range(k):
-    if funcs is None:
-        pol.add_jones_propagation()
-    else:
-        pol.add_jones_propagation(funcs_to_change=funcs)
-meta = {'errors': {}, 'changed': sorted(n for n, f in before.items() if getattr(P, n) is not f),
-        'names': {n: getattr(getattr(P, n), '__name__', None) for n in pol.supported_propagation_funcs}, 'calls': 0}
-res = {}
-for shape in c20.HIST_SHAPES:
-    shape = tuple(shape)
-    for name, calls in c20.prop_calls(shape).items():
-        for ci, (args, kw) in enumerate(calls):
-            for kind in ['2d'] + c20.jones_kinds():
-                key = f'{name}|{shape[0]}x{shape[1]}|{ci}|{kind}'
-                x = c20.dense(shape, seed, salt=301) if kind == '2d' else c20.jones_input(shape, seed, kind)
-                a, kk = c20._mk(args, kw, shape, seed)
-                c20.reset_executors(c20.PREC)
-                try:
-                    res[key] = np.asarray(getattr(P, name)(x, *a, **kk))
-                    meta['calls'] += 1
-                except Exception as e:
-                    meta['errors'][key] = f'{type(e).__name__}: {e}'
-    # the Wavefront methods route through the (possibly patched) module functions
-    E = c20.dense(shape, seed, salt=301)
-    for mname, margs in (('focus', (100.0, 2)), ('unfocus', (100.0, 2)), ('free_space', (3.0, 2)), ('focus_fixed_sampling', (100.0, 2.0, 5))):
-        key = f'Wavefront.{mname}|{shape[0]}x{shape[1]}'
-        c20.reset_executors(c20.PREC)
+res, meta = {}, {'stages': {}, 'calls': 0}
+
+
+def evaluate(stage):
+    m = {'errors': {}, 'mutated': [], 'changed': sorted(n for n, f in before.items() if getattr(P, n) is not f),
+         'names': {n: getattr(getattr(P, n), '__name__', None) for n in pol.supported_propagation_funcs}}
+    meta['stages'][str(stage)] = m
+    for shape in c20.hist_shapes(spec):
+        shape = tuple(shape)
+        for name, calls in c20.prop_calls(shape).items():
+            for ci, (args, kw, full) in enumerate(calls):
+                if not c20.hist_entry(spec, full):
+                    continue
+                for kind in c20.hist_kinds(spec, full):
+                    key = f'{stage}|{name}|{shape[0]}x{shape[1]}|{ci}|{kind}'
+                    x = c20.dense(shape, seed, salt=301) if kind == '2d' else c20.jones_input(shape, seed, kind)
+                    a, kk = c20._mk(args, kw, shape, seed)
+                    snap = c20._arg_snapshot(a, kk)
+                    c20.reset_executors(c20.PREC)
+                    try:
+                        res[key] = np.asarray(getattr(P, name)(x, *a, **kk))
+                        meta['calls'] += 1
+                    except Exception as e:
+                        m['errors'][key] = f'{type(e).__name__}: {e}'
+                    if c20._arg_snapshot(a, kk) != snap:
+                        m['mutated'].append(f'{key}: {snap} -> {c20._arg_snapshot(a, kk)}')
+        # the Wavefront methods route through the (possibly patched) module functions
+        E = c20.dense(shape, seed, salt=301)
+        for mname, margs in c20.WF_METHODS:
+            key = f'{stage}|Wavefront.{mname}|{shape[0]}x{shape[1]}'
+            c20.reset_executors(c20.PREC)
+            try:
+                w = P.Wavefront(E.copy(), 0.6, 0.5, space='psf' if mname == 'unfocus' else 'pupil')
+                res[key] = np.asarray(getattr(w, mname)(*margs).data)
+                meta['calls'] += 1
+            except Exception as e:
+                m['errors'][key] = f'{type(e).__name__}: {e}'
+
+
+def run_mode(mode):
+    seq = spec['seq']
+    if not seq:
+        evaluate(0)
+    for n, ev in enumerate(seq, 1):
+        if ev is None:
+            pol.add_jones_propagation()
+        elif isinstance(ev, dict):          # the user wraps one routine by hand
+            setattr(P, ev['manual'], pol.jones_adapter(getattr(P, ev['manual'])))
+        else:
+            pol.add_jones_propagation(funcs_to_change={'list': list, 'tuple': tuple, 'set': set}[spec.get('form', 'list')](ev))
+        if mode == 'staged' or n == len(seq):
+            evaluate(n)
+    np.savez(outdir + f'/res_{mode}.npz', **res)
+    json.dump(meta, open(outdir + f'/meta_{mode}.json', 'w'))
+
+
+# this process has only IMPORTED the library; every mode runs in its own forked child, i.e. from the pristine just-imported state
+import os
+for mode in spec.get('modes', ['final']):
+    pid = os.fork()
+    if pid == 0:
+        code = 0
         try:
-            w = P.Wavefront(E.copy(), 0.6, 0.5, space='psf' if mname == 'unfocus' else 'pupil')
-            res[key] = np.asarray(getattr(w, mname)(*margs).data)
-            meta['calls'] += 1
-        except Exception as e:
-            meta['errors'][key] = f'{type(e).__name__}: {e}'
-np.savez(outdir + '/res.npz', **res)
-json.dump(meta, open(outdir + '/meta.json', 'w'))
+            run_mode(mode)
+        except BaseException:
+            traceback.print_exc()
+            code = 1
+        sys.stderr.flush()
+        os._exit(code)
+    if os.waitpid(pid, 0)[1] != 0:
+        sys.exit(1)
 '''
 
 HIST_SHAPES = [[4, 4], [4, 6]]
+WF_METHODS = (('focus', (100.0, 2)), ('unfocus', (100.0, 2)), ('free_space', (3.0, 2)), ('focus_fixed_sampling', (100.0, 2.0, 5)))
+
+
+def hist_shapes(spec):
+    return [[4, 6]] if spec.get('lite') else HIST_SHAPES
+
+
+def hist_kinds(spec, full):
+    return ['2d'] + (jones_kinds() if full is True and not spec.get('lite') else ['4d'])
+
+
+def hist_entry(spec, full):
+    """lite histories run the base call forms and the 'key' argument forms; the others every entry"""
+    return full is not False or not spec.get('lite')
+
+
+_REFS = {}     # (precision, seed, ...) -> results of the NEVER-patched routines of this process (deterministic; shared by the cases a worker runs)
+
+
+def _ev_names(ev):
+    if ev is None:
+        return set(pol.supported_propagation_funcs)
+    if isinstance(ev, dict):
+        return {ev['manual']}
+    return set(ev)
 
 
 def run_history(case, seed, R):
-    k, funcs = case['installs'], case['funcs']
+    seq = case['seq']
     if any(hasattr(getattr(prop, n), '__wrapped__') for n in pol.supported_propagation_funcs):
         raise RuntimeError('prysm.propagation is patched inside the harness process')
     d = tempfile.mkdtemp(prefix='c20-')
-    sig0 = f'adapter-install:x{k}'
+    sigc = f'adapter-install:{"x" if all(e == seq[0] for e in seq) else "seq"}{len(seq)}'
+    spec = {k: v for k, v in case.items() if k != 'prec'}
     try:
         env = dict(os.environ)
         here = [os.path.dirname(os.path.dirname(os.path.dirname(os.path.abspath(pol.__file__)))), os.path.dirname(os.path.dirname(os.path.abspath(__file__)))]
         env['PYTHONPATH'] = os.pathsep.join(here + ([env['PYTHONPATH']] if env.get('PYTHONPATH') else []))
-        p = subprocess.run([sys.executable, '-W', 'ignore', '-c', _SUB, str(k), json.dumps(funcs), str(int(seed)), d, str(PREC)],
+        p = subprocess.run([sys.executable, '-W', 'ignore', '-c', _SUB, json.dumps(spec), str(int(seed)), d, str(PREC)],
                            env=env, capture_output=True, text=True, timeout=600)
         R.tick()
-        if p.returncode != 0 or not os.path.exists(os.path.join(d, 'meta.json')):
-            R.violation(sig0 + ':subprocess', f'installing the adapter {k}x (funcs={funcs}) and propagating failed:\n{p.stderr[-1500:]}')
+        if p.returncode != 0 or not all(os.path.exists(os.path.join(d, f'meta_{m}.json')) for m in case.get('modes', ['final'])):
+            R.violation(sigc + ':subprocess', f'installing the adapter (history {seq}) and propagating failed:\n{p.stderr[-1500:]}')
             return
-        with open(os.path.join(d, 'meta.json')) as fh:
-            meta = json.load(fh)
-        with np.load(os.path.join(d, 'res.npz')) as z:
-            res = {key: z[key] for key in z.files}
+        loaded = {}
+        for mode in case.get('modes', ['final']):
+            with open(os.path.join(d, f'meta_{mode}.json')) as fh:
+                m_ = json.load(fh)
+            with np.load(os.path.join(d, f'res_{mode}.npz')) as z:
+                loaded[mode] = (m_, {key: z[key] for key in z.files})
     finally:
         shutil.rmtree(d, ignore_errors=True)
-    R.tick(meta['calls'])
-    patched = set(pol.supported_propagation_funcs if funcs is None else funcs) if k > 0 else set()
-    R.expect(set(meta['changed']) == patched, sig0 + ':patched-set', f'attributes of prysm.propagation that changed: {meta["changed"]}, expected {sorted(patched)}')
-    for n, nm in meta['names'].items():
-        R.expect(nm == n, sig0 + ':wraps', f'propagation.{n}.__name__ is {nm!r} after {k} installs')
-    for shape in HIST_SHAPES:
-        shape = tuple(shape)
-        for name, calls in prop_calls(shape).items():
-            plain = getattr(prop, name)
-            for ci, (args, kw) in enumerate(calls):
-                key2 = f'{name}|{shape[0]}x{shape[1]}|{ci}|2d'
-                key4 = f'{name}|{shape[0]}x{shape[1]}|{ci}|4d'
-                sig = f'{sig0}:{name}'
-                a, kk = _mk(args, kw, shape, seed)
-                reset_executors(PREC)
-                w2 = plain_eval(plain, dense(shape, seed, salt=301), a, kk)
-                if w2 is None:
-                    R.outcome('plain-routine-raises')
-                    continue
-                tol = 64 * TOLU * max(1.0, float(np.abs(w2).max()))
-                if key2 in meta['errors']:
-                    R.violation(sig + ':plain-broken', f'plain 2-D {name} raised after {k} installs: {meta["errors"][key2]}')
-                else:
-                    R.expect_close(res.get(key2, FAILED), w2, tol, sig + ':plain-broken', f'plain 2-D {name} (call {ci}, {shape}) after {k} installs')
-                if name in patched:
-                    for kind in jones_kinds():
-                        key4 = f'{name}|{shape[0]}x{shape[1]}|{ci}|{kind}'
-                        J = jones_input(shape, seed, kind)
-                        want = np.empty(np.asarray(w2).shape + (2, 2), dtype=complex)
-                        for i in range(2):
-                            for j in range(2):
-                                a, kk = _mk(args, kw, shape, seed)
-                                reset_executors(PREC)
-                                c = plain_eval(plain, np.ascontiguousarray(J[..., i, j]), a, kk)
-                                want[..., i, j] = np.nan if c is None else c
-                        if not np.all(np.isfinite(want)):
-                            R.outcome('plain-routine-raises')
-                            continue
-                        if key4 in meta['errors']:
-                            R.violation(sig + ':polarized', f'polarised {name} raised after {k} installs: {meta["errors"][key4]}')
-                        else:
-                            R.expect_close(res.get(key4, FAILED), want, comp_tol(want), sig + ':polarized',
-                                           f'polarised {name} (call {ci}, {shape}, field {kind}) after {k} installs vs component-wise plain propagation (relative per component)')
-                    R.nontrivial(True)
-        E = dense(shape, seed, salt=301)
-        for mname, margs in (('focus', (100.0, 2)), ('unfocus', (100.0, 2)), ('free_space', (3.0, 2)), ('focus_fixed_sampling', (100.0, 2.0, 5))):
-            key = f'Wavefront.{mname}|{shape[0]}x{shape[1]}'
+    for mode, (meta_all, res) in loaded.items():
+        R.tick(meta_all['calls'])
+        _judge_history(case, spec, seed, R, mode == 'staged', meta_all, res)
+    R.outcome(f'installs={len(seq)}')
+    R.nontrivial(len(seq) > 0)
+
+
+def _judge_history(case, spec, seed, R, staged, meta_all, res):
+    seq = case['seq']
+    refs = _REFS.setdefault((PREC, int(seed)), {})
+
+    def ref2(name, shape, ci, args, kw):
+        key = (name, shape, ci, '2d')
+        if key not in refs:
+            a, kk = _mk(args, kw, shape, seed)
             reset_executors(PREC)
-            w = prop.Wavefront(E.copy(), 0.6, 0.5, space='psf' if mname == 'unfocus' else 'pupil')
-            want = np.asarray(getattr(w, mname)(*margs).data)
-            if key in meta['errors']:
-                R.violation(f'{sig0}:Wavefront.{mname}', f'Wavefront.{mname} raised after {k} installs: {meta["errors"][key]}')
-            else:
-                R.expect_close(res.get(key, FAILED), want, 64 * TOLU * max(1.0, float(np.abs(want).max())), f'{sig0}:Wavefront.{mname}',
-                               f'Wavefront.{mname} {shape} after {k} installs')
-    R.outcome(f'installs={k}')
-    R.nontrivial(k > 0)
+            w = plain_eval(getattr(prop, name), dense(shape, seed, salt=301), a, kk)
+            refs[key] = None if w is None else w.copy()
+        return refs[key]
+
+    def ref4(name, shape, ci, args, kw, kind, oshape):
+        key = (name, shape, ci, kind)
+        if key not in refs:
+            J = jones_input(shape, seed, kind)
+            want = np.empty(oshape + (2, 2), dtype=complex)
+            for i in range(2):
+                for j in range(2):
+                    a, kk = _mk(args, kw, shape, seed)
+                    reset_executors(PREC)
+                    c = plain_eval(getattr(prop, name), np.ascontiguousarray(J[..., i, j]), a, kk)
+                    want[..., i, j] = np.nan if c is None else c
+            refs[key] = want
+        return refs[key]
+
+    stages = ([0] if not seq else (list(range(1, len(seq) + 1)) if staged else [len(seq)]))
+    for n in stages:
+        done = seq[:n]
+        sig0 = f'adapter-install:{"x" if all(e == done[0] for e in done) else "seq"}{n}'
+        after = f'after the installation history {done}'
+        meta = meta_all['stages'].get(str(n))
+        if meta is None:
+            R.violation(sig0 + ':subprocess', f'no observations {after}')
+            continue
+        patched = set().union(*[_ev_names(e) for e in done]) if done else set()
+        R.expect(set(meta['changed']) == patched, sig0 + ':patched-set', f'attributes of prysm.propagation that changed {after}: {meta["changed"]}, expected {sorted(patched)}')
+        for nm_, nm in meta['names'].items():
+            R.expect(nm == nm_, sig0 + ':wraps', f'propagation.{nm_}.__name__ is {nm!r} {after}')
+        R.expect(not meta['mutated'], sig0 + ':argument-changed', f'a propagation call changed the caller\'s argument object {after}: {meta["mutated"][:3]}')
+        for shape in hist_shapes(spec):
+            shape = tuple(shape)
+            for name, calls in prop_calls(shape).items():
+                for ci, (args, kw, full) in enumerate(calls):
+                    if not hist_entry(spec, full):
+                        continue
+                    key2 = f'{n}|{name}|{shape[0]}x{shape[1]}|{ci}|2d'
+                    sig = f'{sig0}:{name}'
+                    w2 = ref2(name, shape, ci, args, kw)
+                    if w2 is None:
+                        R.outcome('plain-routine-raises')
+                        continue
+                    tol = 64 * TOLU * max(1.0, float(np.abs(w2).max()))
+                    if key2 in meta['errors']:
+                        R.violation(sig + ':plain-broken', f'plain 2-D {name}{_describe(args, kw)} raised {after}: {meta["errors"][key2]}')
+                    else:
+                        R.expect_close(res.get(key2, FAILED), w2, tol, sig + ':plain-broken', f'plain 2-D {name}{_describe(args, kw)} (call {ci}, {shape}) {after}')
+                    if name in patched:
+                        for kind in hist_kinds(spec, full)[1:]:
+                            key4 = f'{n}|{name}|{shape[0]}x{shape[1]}|{ci}|{kind}'
+                            want = ref4(name, shape, ci, args, kw, kind, np.asarray(w2).shape)
+                            if not np.all(np.isfinite(want)):
+                                R.outcome('plain-routine-raises')
+                                continue
+                            if key4 in meta['errors']:
+                                R.violation(sig + ':polarized', f'polarised {name}{_describe(args, kw)} raised {after}: {meta["errors"][key4]}')
+                            else:
+                                R.expect_close(res.get(key4, FAILED), want, comp_tol(want), sig + ':polarized',
+                                               f'polarised {name}{_describe(args, kw)} (call {ci}, {shape}, field {kind}) {after} vs component-wise plain propagation (relative per component)')
+                        R.nontrivial(True)
+            E = dense(shape, seed, salt=301)
+            for mname, margs in WF_METHODS:
+                key = f'{n}|Wavefront.{mname}|{shape[0]}x{shape[1]}'
+                rk = ('Wavefront', mname, shape)
+                if rk not in refs:
+                    reset_executors(PREC)
+                    w = prop.Wavefront(E.copy(), 0.6, 0.5, space='psf' if mname == 'unfocus' else 'pupil')
+                    refs[rk] = np.asarray(getattr(w, mname)(*margs).data)
+                want = refs[rk]
+                if key in meta['errors']:
+                    R.violation(f'{sig0}:Wavefront.{mname}', f'Wavefront.{mname} raised {after}: {meta["errors"][key]}')
+                else:
+                    R.expect_close(res.get(key, FAILED), want, 64 * TOLU * max(1.0, float(np.abs(want).max())), f'{sig0}:Wavefront.{mname}',
+                                   f'Wavefront.{mname} {shape} {after}')
 
 
 # ---------------------------------------------------------------------------------------------
@@ -1058,12 +1486,27 @@ def plan(tier, seed):
     vectors = [{'shape': s, 'off': off, 'pool': A['ang']} for s in A['shapes'] for off in range(len(A['ang']))]
     ashapes = [[4, 4], [4, 6]] + ([] if quick else [[5, 5], [6, 3]])
     adapters = [{'routine': n, 'shape': s} for n in pol.supported_propagation_funcs for s in ashapes]
-    hist = [{'installs': 0, 'funcs': None}]
-    for k in (1, 2) if quick else (1, 2, 3):
-        hist.append({'installs': k, 'funcs': None})
-        hist.append({'installs': k, 'funcs': ['focus']})
-        if not quick:
-            hist.append({'installs': k, 'funcs': ['unfocus', 'angular_spectrum', 'focus_fixed_sampling']})
+    # installation histories: every sequence of install events up to the depth, each in a fresh sub-process
+    FS = ['focus_fixed_sampling', 'unfocus_fixed_sampling']
+    ev_alpha = [None, ['focus'], ['unfocus'], ['angular_spectrum'], FS, {'manual': 'unfocus'}]
+    if not quick:
+        ev_alpha += [[], ['focus_fixed_sampling'], ['unfocus', 'angular_spectrum', 'focus_fixed_sampling']]
+    seqs = [[]] + [[a] for a in ev_alpha] + [[a, b] for a in ev_alpha for b in ev_alpha]
+    if not quick:
+        deep = [None, ['focus'], ['unfocus', 'angular_spectrum', 'focus_fixed_sampling']]
+        seqs += [[a, b, c] for a in deep for b in deep for c in deep] + [[a, a, a] for a in ev_alpha if a not in deep]
+    homog = lambda q: all(e == q[0] for e in q)   # noqa
+    hist64, hist32 = [], []
+    for q_ in seqs:
+        lite = not homog(q_)
+        # 'staged': propagate after EVERY install event, every stage judged; both modes start from the pristine just-imported state
+        hist64.append({'seq': q_, 'lite': lite, 'modes': ['final', 'staged'] if len(q_) >= 2 else ['final']})
+        if not quick or len(q_) <= 1 or homog(q_) or None in q_:
+            hist32.append({'seq': q_, 'lite': lite, 'modes': ['final']})
+    for form in ('tuple', 'set'):
+        hist64.append({'seq': [['focus', 'angular_spectrum']], 'lite': True, 'modes': ['final'], 'form': form})
+        hist64.append({'seq': [['focus'], FS], 'lite': True, 'modes': ['final', 'staged'], 'form': form})
+    hist = [dict(c, prec=64) for c in hist64] + [dict(c, prec=32) for c in hist32]
     both = lambda cases: [dict(c, prec=pr) for pr in (64, 32) for c in cases]   # noqa
     P2 = ' || every case runs under config.precision 64 and 32, from a fresh library state (functools caches and transform executors cleared), all tolerances are k * 32 eps(configured precision)'
     at = f"retardance {A['ret']}, angles {A['ang']}, diattenuation {A['dia']}"
@@ -1090,10 +1533,27 @@ def plan(tier, seed):
                   'linear_pol_vector with array angles (radians and degrees) == element-by-element; circular_pol_vector both handednesses, value, S3 sign, and shape= form'),
         ScopeUnit('adapter', both(adapters), at_precision(run_adapter),
                   f'jones_adapter(f) for each of the five supported routines x shapes {ashapes} x three call forms (positional / keyword / shift / czt / explicit tf) x 20 Jones fields (seeded dense; each single component alone; each component alone scaled by {1e-3, 1e-9, 1e-12} with the others O(1); the whole field scaled likewise): '
-                  'equal to four plain propagations of the components with a RELATIVE tolerance per component; homogeneity adapter(s J) = s adapter(J); 2-D fields pass through unchanged; apply_polarization_optic'),
-        ScopeUnit('install_history', both(hist), at_precision(run_history),
-                  'add_jones_propagation installed 0, 1, 2' + ('' if quick else ', 3') + ' times (default list and sub-lists) in a fresh sub-process per case: exactly the listed attributes are replaced, plain 2-D calls and Wavefront methods '
-                  'give the results of the never-patched routines, polarised (N,M,2,2) calls equal component-wise plain propagation (relative per component; dense field plus the same amplitude-scale alphabet {1e-3,1e-9,1e-12} per component and overall); shapes (4,4) and (4,6), three call forms per routine', chunk=1),
+                  'equal to four plain propagations of the components with a RELATIVE tolerance per component; homogeneity adapter(s J) = s adapter(J); 2-D fields pass through unchanged; apply_polarization_optic. '
+                  'ARGUMENT-FORM alphabet (dense field + 2-D field per form; the argument objects are explicit R.call arguments so the hygiene layer snapshots them; the adapter receives ONE object and passes it to the scalar routine four times, '
+                  'the right-hand side gets a fresh object per component; the caller\'s objects must be unchanged afterwards): focus / unfocus Q in {2, 1, 1.5} as ' + str(Q_FORMS) + '; fixed-sampling routines with a NON-ZERO shift and output_dx != 1, shift as '
+                  + str(SHIFT_FORMS_F) + ' (float values) and ' + str(SHIFT_FORMS_I) + ' (integer values) x engines {mdft, czt}, shift positional, output_samples as range / numpy ints / numpy scalar (and list / int ndarray for czt), '
+                  'all scalar parameters as np.float64 / 0-d array / int / np.int64 / np.uint8; angular_spectrum wvl, dx, z and Q in the same scalar forms. Forms the unchanged scalar routine rejects (list / ndarray output_samples with mdft) are outside the domain.'),
+        ScopeUnit('install_history', hist, at_precision(run_history),
+                  f'EVERY sequence of up to {2 if quick else 3} installation events over the alphabet {ev_alpha} (None = add_jones_propagation() with the default list; a list = add_jones_propagation(that subset); '
+                  'manual = the user assigns jones_adapter(f) to the module attribute by hand)' + ('' if quick else '; depth 3 over {default, [focus], a three-element subset} and every event three times') + ', each in a fresh sub-process: '
+                  'after the history exactly the UNION of the named attributes is replaced (partial-then-full, full-then-partial, disjoint and overlapping subsets, repeats), plain 2-D calls and Wavefront methods give the results of the '
+                  'never-patched routines, polarised (N,M,2,2) calls through every routine in the union equal component-wise plain propagation (relative per component), no call changes a caller\'s argument object. '
+                  'Each sequence of length >= 2 also runs "staged": the whole evaluation is made and judged after EVERY install event (call; install more; call again). Homogeneous sequences (the same event k times) use shapes (4,4) and (4,6), '
+                  'three base call forms per routine on the dense field plus the amplitude-scale alphabet {1e-3,1e-9,1e-12} per component and overall; mixed and staged sequences use shape (4,6) and the dense field. '
+                  'Every evaluation includes the argument-form alphabet of the adapter unit (shift as list / float64 / float32 / int ndarray / range / numpy scalars / 0-d arrays / strided view, x both engines; output_samples, Q and scalar parameter forms). '
+                  'The subset container is also given as tuple and set. Precision 32 is crossed with the sequences of length <= 1, the homogeneous ones and those containing the default install' + ('' if quick else ' (all of them in this tier)') + '.', chunk=1),
+        ScopeUnit('threshold', threshold_cases(tier), at_precision(run_threshold),
+                  'size-threshold alphabet: batches of n = 2^k + 1 and 2^k + 2^(k-1) + 3 elements for k = 7..16 (1-D), leading shapes 129x3, 65x65, 150x150, 3x50x31, 181x182, 300x300, 257x1030, 513x513'
+                  + ('' if quick else ', 4097, 2x2049, 64x64, 128x128, 1000x1100') + ' and one 1025x1025 Jones pupil (> 2^20 matrices; ' + ('a single unitary conversion' if quick else 'full groups') + '), under precision 64 and (up to 2^18 elements) 32. '
+                  'Group mueller: jones_to_mueller of a batch of elliptical retarders with lattice-varying parameters (all elements distinct) == the Mueller matrix defined by S(JE) = M S(E) on EVERY element, M M^T = I, M00 = 1; of a seeded generic batch; '
+                  'M(AB) = M(A) M(B) on every element; broadcast_kron == Kronecker product per element; Pauli coefficients reconstruct every element.  Group ctor: every constructor with array parameters + shape=, vector_vortex_retarder on a theta grid '
+                  '(two settings), linear_pol_vector (radians, degrees), pauli_spin_matrix / circular_pol_vector with shape= against vectorised references on every element.  Group adapter (2-D shapes): apply_polarization_optic and jones_adapter(f) for the five routines '
+                  '(one setting each) == four plain propagations on every sample.  Call hygiene variants are on up to 12291 elements and off above.  This unit is NOT closed over the data dimension (one or two probe inputs per size).', chunk=1),
         HistoryUnit('precision_history', [{'prec': 64}, {'prec': 32}], h_fresh, h_events, h_apply, h_check, h_canon, 3 if quick else 4,
                     f'BFS to depth {3 if quick else 4} from both initial precisions over events {H_EVENTS} (precision switches; jones_to_mueller of a fixed unitary and of a batch; linear_retarder; '
                     'vector_vortex_retarder; jones_adapter(focus_fixed_sampling) on a Jones field; pauli_spin_matrix): the last call equals, in dtype and to 4 eps(current precision), the same call made in a fresh '
